@@ -1,0 +1,51 @@
+//go:build verif
+
+package limits
+
+import "github.com/foxcpp/maddy/internal/limits/limiters"
+
+// Accessors for the verification harness (/verif, property C11). Nothing here
+// changes behaviour; the file does not exist for the compiler without the
+// build tag "verif".
+
+// VerifScope is what one scope of the group looks like from outside.
+type VerifScope struct {
+	Configured bool                // the scope has a limiter (bucket set) at all
+	Len        int                 // buckets in the table
+	Buckets    map[string][][2]int // key -> {in use, capacity} per semaphore
+}
+
+// VerifGlobal returns {in use, capacity} of every semaphore of the "all" scope.
+func (g *Group) VerifGlobal() [][2]int { return limiters.VerifSems(&g.global) }
+
+func (g *Group) verifSet(scope string) *limiters.BucketSet {
+	switch scope {
+	case "ip":
+		return g.ip
+	case "source":
+		return g.source
+	case "dest":
+		return g.dest
+	}
+	return nil
+}
+
+// VerifScopeState inspects the bucket set of scope "ip", "source" or "dest".
+func (g *Group) VerifScopeState(scope string, keys []string) VerifScope {
+	bs := g.verifSet(scope)
+	if bs == nil {
+		return VerifScope{}
+	}
+	return VerifScope{Configured: true, Len: bs.VerifLen(), Buckets: bs.VerifBuckets(keys)}
+}
+
+// VerifSetMaxBuckets overrides the bucket-table capacity (20010 in Init) of
+// every configured scope so that the overflow paths can be reached with a
+// handful of keys.
+func (g *Group) VerifSetMaxBuckets(n int) {
+	for _, bs := range []*limiters.BucketSet{g.ip, g.source, g.dest} {
+		if bs != nil {
+			bs.MaxBuckets = n
+		}
+	}
+}
